@@ -68,7 +68,7 @@ PLACERS = ["sequential", "breadth_first", "hilbert", "rcm", "rand", "sa-py",
            "sa-c"]
 KF_CK32 = "c-kernel-quantities-beyond-32-bit"
 CLASSES = ["easy", "general", "tight", "infeasible", "groups", "tiny",
-           "deadloc", "sa_tight", "alldead", "huge_tight"]
+           "deadloc", "sa_tight", "alldead", "huge_tight", "easy_full"]
 
 _asan = {}
 
@@ -126,6 +126,30 @@ def gen(cls, idx, rng, tier):
             dict(seed=rng.randrange(1 << 30)) if placer == "rand" else {}
         return dict(machine=m, vertices=vs, nets=nets_, constraints=[],
                     placer=placer, kw=kw, easy=False)
+    if cls == "easy_full":
+        # the success clause at its limit: unit vertices that exactly fill
+        # the live chips; machines of a few recurring sizes with changing
+        # dead chips follow each other in one process
+        w, h = rng.choice([(2, 2), (3, 2), (3, 3), (4, 2), (4, 4)])
+        c = rng.choice([1, 2, 3])
+        dead = sorted({(rng.randrange(w), rng.randrange(h))
+                       for _ in range(rng.randint(0, max(1, w * h // 3)))})
+        if len(dead) == w * h:
+            dead = dead[1:]
+        m = dict(w=w, h=h, res={"Cores": c}, exc={}, dead_chips=dead,
+                 dead_links=[])
+        n_live = w * h - len(dead)
+        nv = n_live * c - rng.choice([0, 0, 0, 1])
+        vs = [(i, {"Cores": 1}) for i in range(nv)]
+        nets_ = [(rng.randrange(max(1, nv)), [rng.randrange(max(1, nv))
+                                              for _ in range(rng.randint(1, 3))],
+                  1.0) for _ in range(rng.randint(0, 6))] if nv else []
+        placer = PLACERS[idx % len(PLACERS)]
+        kw = dict(effort=rng.choice([0, 0.1]), seed=rng.randrange(1 << 30),
+                  stop_after=None) if placer.startswith("sa-") else \
+            dict(seed=rng.randrange(1 << 30)) if placer == "rand" else {}
+        return dict(machine=m, vertices=vs, nets=nets_, constraints=[],
+                    placer=placer, kw=kw, easy=True)
     if cls == "alldead":
         m = par.gen_machine(rng, max_w=3, max_h=3, p_dead=0)
         m["dead_chips"] = [(x, y) for x in range(m["w"])
